@@ -33,14 +33,14 @@ TIMEOUT = {"quick": 900, "thorough": 3600}
 
 def cases(tier, seed):
     cs = []
-    ninputs = 2 if tier == "quick" else 8
+    ninputs = 2 if tier == "quick" else 20
     for sc in scenarios.all_scenarios():
         for k in range(ninputs):
             cs.append({"kind": "m1", "scenario": sc.name, "seed": seed * 100 + k + 11,
                        "extra": 6 if tier == "quick" else 12})
     workers = [1, 3, 16] if tier == "quick" else [1, 2, 3, 5, 16]
     for sc in scenarios.all_scenarios():
-        for k in range(1 if tier == "quick" else 2):
+        for k in range(1 if tier == "quick" else 4):
             cs.append({"kind": "m2", "scenario": sc.name, "seed": seed * 100 + k + 11, "workers": workers})
     hists = [
         [{"tool": "chef_sdi", "bf": 2, "pressure": 1.0}, {"tool": "chef_sdi", "bf": 2, "pressure": 5.0}],
